@@ -393,4 +393,73 @@ theorem inv_put {s : Sys} {t : Nat} {x x' : Task} {it : Item} (h : Inv s) (hx : 
           at dPt dPf dWt dWf dI dO dR dC hge <;>
         num_close h
 
+/-- a receiver takes the head of the queue (`get_nowait` + `task_done` + sentinel test) -/
+theorem inv_take {s : Sys} {t : Nat} {x x' : Task} {it : Item} {rest : List Item} {rl' : List (Nat × Item)}
+    (counted : Bool) (h : Inv s) (hx : s.tasks[t]? = some x)
+    (hwx : x.wait = if counted then .blocked true .woken else .ready)
+    (hq : s.queue = it :: rest) (hc' : x'.code = x.code) (hm' : x'.mustCancel = x.mustCancel)
+    (hrc : x.code.isReceiver = true)
+    (hfl : it = .flush → x'.wait = .done ∧ rl' = s.recvLog)
+    (hdt : ∀ a b, it = .data a b → x'.wait = .ready ∧ rl' = s.recvLog ++ [(t, it)])
+    (hnd : counted = false → ind s.closed = 1 → s.waiting < s.queue.length) :
+    Inv (wake false { s.setTask t x' with queue := rest, waiting := if counted then s.waiting - 1 else s.waiting, unfinished := s.unfinished - 1, recvLog := rl' }) := by
+  obtain ⟨dP, dW, dI, dO, dF, dR, dC⟩ := delta x' hx
+  have dPt := dP true; have dPf := dP false; have dWt := dW true; have dWf := dW false
+  clear dP dW
+  have hgeI := tsum_ge (f := mInGet) hx
+  have hgeW := tsum_ge (f := mWok true) hx
+  have hnf : x.code ≠ .flusher none := by intro e; rw [e] at hrc; simp [Code.isReceiver] at hrc
+  have hnfl : x.code.isFlusher = false := by cases hcode : x.code <;> simp [hcode, Code.isFlusher, Code.isReceiver] at hrc ⊢
+  have howed : owedOf x.code = 0 := by cases hcode : x.code <;> simp [hcode, owedOf, Code.isReceiver] at hrc ⊢
+  have hw'np : ∀ g, x'.wait ≠ .blocked g .pending := by
+    intro g hg
+    cases it with
+    | flush => rw [(hfl rfl).1] at hg; cases hg
+    | data a b => rw [(hdt a b rfl).1] at hg; cases hg
+  have hs1 : SInv { s.setTask t x' with queue := rest, waiting := if counted then s.waiting - 1 else s.waiting, unfinished := s.unfinished - 1, recvLog := rl' } := by
+    refine ⟨?_, ?_, h.st.ord, ?_, h.st.preCl, ?_⟩
+    · show s.putLog = List.map Prod.snd rl' ++ List.filter Item.isData rest
+      rw [h.st.fifo, hq]
+      cases it with
+      | flush => rw [(hfl rfl).2]; simp [List.filter, Item.isData]
+      | data a b => rw [(hdt a b rfl).2]; simp [List.filter, Item.isData]
+    · show ∀ a b, Item.data a b ∈ s.putLog → b < nextAt (s.tasks.set t x') a
+      exact uniq_mono h.st.uniq (nextAt_set_le hx (by rw [hc']; exact Nat.le_refl _))
+    · exact g1_set (s := s) h.st.g1 hx rfl (mem_dq_same _ _ rfl rfl) (by intro g hg; exact absurd hg (hw'np g))
+    · show ∀ (u : Nat) (y : Task), (s.tasks.set t x')[u]? = some y → y.code.isFlusher = true → mCanc y = 0 ∧ s.closed = true
+      refine fl_set h.st.fl hx ?_
+      intro hf; rw [hc', hnfl] at hf; cases hf
+  generalize hS1 : ({ s.setTask t x' with queue := rest, waiting := if counted then s.waiting - 1 else s.waiting, unfinished := s.unfinished - 1, recvLog := rl' } : Sys) = S1 at hs1
+  constructor
+  · exact sinv_wake false hs1
+  · have hwk := abs_wake false S1 hs1.g1
+    generalize abs (wake false S1) = a' at hwk ⊢
+    subst hS1
+    simp only [abs, Sys.setTask, Bool.false_eq_true, if_false] at hwk
+    have hql : s.queue.length = rest.length + 1 := by rw [hq]; rfl
+    cases it with
+    | flush =>
+      obtain ⟨hw', hrl⟩ := hfl rfl
+      subst hrl
+      have htw : (List.takeWhile Item.isData s.queue).length = 0 := by rw [hq]; simp [List.takeWhile, Item.isData]
+      have hdq : (List.filter Item.isData s.queue).length = (List.filter Item.isData rest).length := by
+        rw [hq]; simp [List.filter, Item.isData]
+      have htwr := (List.takeWhile_sublist Item.isData (l := rest)).length_le
+      cases counted <;>
+        simp [mPend, mWok, mInGet, mOwed, mFresh, mRecvDone, mCanc, Wait.inGet, Wait.isCancelled, hwx, hw', hc', hm', hnf, howed, hrc]
+          at dPt dPf dWt dWf dI dO dF dR dC hgeI hgeW hnd hwk <;>
+        num_close h
+    | data a b =>
+      obtain ⟨hw', hrl⟩ := hdt a b rfl
+      subst hrl
+      have htw : (List.takeWhile Item.isData s.queue).length = (List.takeWhile Item.isData rest).length + 1 := by
+        rw [hq]; simp [List.takeWhile, Item.isData]
+      have hdq : (List.filter Item.isData s.queue).length = (List.filter Item.isData rest).length + 1 := by
+        rw [hq]; simp [List.filter, Item.isData]
+      have hrl : (s.recvLog ++ [(t, Item.data a b)]).length = s.recvLog.length + 1 := by simp
+      cases counted <;>
+        simp [mPend, mWok, mInGet, mOwed, mFresh, mRecvDone, mCanc, Wait.inGet, Wait.isCancelled, hwx, hw', hc', hm', hnf, howed, hrc]
+          at dPt dPf dWt dWf dI dO dF dR dC hgeI hgeW hnd hwk <;>
+        num_close h
+
 end Bp.Chan
